@@ -298,6 +298,11 @@ impl Sys {
                 _ => None,
             })
             .collect();
+        self.m.observed_run_return = self
+            .w
+            .obs_since(self.mark)
+            .iter()
+            .any(|o| matches!(o, Ob::Ctx { cmd, .. } if *cmd == "run"));
         self.m.observed_pubrels = self
             .w
             .obs_since(self.mark)
@@ -799,6 +804,16 @@ impl Sys {
     // ---- helpers to build conformant broker answers for outstanding operations
 
     /// conformant acknowledgement for op `i` in its current state (None if nothing is due)
+    /// (see `ack_for`) a write error may be injected unless a successful PUBREC is on its way to, or
+    /// has reached, a QoS 2 publish whose PUBREL is still to come while something is being held back
+    pub fn write_err_allowed(&self) -> bool {
+        let held_somewhere = self.m.ctx_held || !self.m.inbox.is_empty() || self.m.ops.iter().any(|o| o.held);
+        let rec_open = self.m.ops.iter().any(|o| {
+            matches!(&o.spec, OpSpec::Publish(p) if p.qos() == 2) && matches!(o.st, St::AwaitRec | St::RecOk | St::RelQueued)
+        });
+        !self.m.write_err && !(held_somewhere && rec_open)
+    }
+
     pub fn ack_for(&self, i: usize, reason: u8, tag: &str) -> Option<SPacket> {
         let o = &self.m.ops[i];
         let pid = o.pid;
@@ -812,6 +827,17 @@ impl Sys {
             if in_flight {
                 return None;
             }
+        }
+        // A successful PUBREC makes the client write a PUBREL - at once (context-driven) or when the
+        // publish() future is polled next (future-driven); both are legitimate. While the write half is
+        // broken that difference would decide WHEN run() fails relative to the rest of a batch, which
+        // no property prescribes: such a PUBREC is only sent when nothing else is pending.
+        if reason < 0x80
+            && matches!((&o.spec, &o.st), (OpSpec::Publish(_), St::AwaitRec))
+            && self.m.write_err
+            && (o.held || self.m.ctx_held || !self.m.inbox.is_empty())
+        {
+            return None;
         }
         let props = if tag.is_empty() {
             vec![]
